@@ -275,10 +275,18 @@ func (p *JWK) AuthorizeSSHSign(_ context.Context, token string) ([]SignOption, e
 	// Add modifiers from custom claims
 	t := now()
 	if !opts.ValidAfter.IsZero() {
-		signOptions = append(signOptions, sshCertValidAfterModifier(cast.Uint64(opts.ValidAfter.RelativeTime(t).Unix())))
+		validAfter, err := cast.SafeUint64(opts.ValidAfter.RelativeTime(t).Unix())
+		if err != nil {
+			return nil, errs.BadRequest("ssh certificate validAfter cannot be before the Unix epoch")
+		}
+		signOptions = append(signOptions, sshCertValidAfterModifier(validAfter))
 	}
 	if !opts.ValidBefore.IsZero() {
-		signOptions = append(signOptions, sshCertValidBeforeModifier(cast.Uint64(opts.ValidBefore.RelativeTime(t).Unix())))
+		validBefore, err := cast.SafeUint64(opts.ValidBefore.RelativeTime(t).Unix())
+		if err != nil {
+			return nil, errs.BadRequest("ssh certificate validBefore cannot be before the Unix epoch")
+		}
+		signOptions = append(signOptions, sshCertValidBeforeModifier(validBefore))
 	}
 
 	return append(signOptions,
